@@ -28,16 +28,18 @@ Qed.
 (* a change of the table that keeps or drops entries (exit, reap, clock step) *)
 Lemma inv_table_shrink w w' :
   Inv w -> hist w' = hist w -> nextinc w' = nextinc w -> ms w' = ms w -> ginc w' = ginc w ->
+  denied w' = [] ->
   NoDup (map kpid (table w')) ->
   (forall k', In k' (table w') -> exists k, In k (table w) /\ kinc k' = kinc k /\ kpid k' = kpid k /\ kstart k' = kstart k) ->
   Inv w'.
 Proof.
-  intros I Eh En Em Eg ND Sub.
+  intros I Eh En Em Eg Ed ND Sub.
   assert (Al : forall i, alive w i = false -> alive w' i = false).
   { intros i A. apply alive_false. intros k' Hk' E. destruct (Sub _ Hk') as (k & Hk & Ei & _).
     apply (proj1 (alive_false w i) A k Hk). congruence. }
   constructor; rewrite ?Eh, ?En, ?Em, ?Eg.
   - apply (inv_next _ I).
+  - exact Ed.
   - exact ND.
   - intros k' Hk'. destruct (Sub _ Hk') as (k & Hk & Ei & Ep & Es). rewrite Ei, Ep, Es. apply (inv_tab _ I); auto.
   - apply (inv_lt _ I).
@@ -49,7 +51,7 @@ Qed.
 
 Lemma kstep_inv w k : Inv w -> wf_kev w k = true -> Inv (kstep w k).
 Proof.
-  intros I W. destruct k as [p s pp cm|p|p|p|d].
+  intros I W. pose proof (inv_nodeny _ I) as ND0. destruct k as [p s pp cm|p|p|p|d|p|p].
   - (* Spawn *)
     cbn [wf_kev] in W. apply andb_true_iff in W as [W Wh]. apply andb_true_iff in W as [W Wl].
     apply andb_true_iff in W as [W Ws]. apply andb_true_iff in W as [Wp0 Wp1].
@@ -62,8 +64,9 @@ Proof.
       apply in_app_iff in Hk as [Hk|[Hk|[]]].
       - apply (proj1 (alive_false w i) A k Hk E).
       - subst k. cbn [kinc] in E. lia. }
-    constructor; cbn [kstep table hist nextinc ms ginc].
+    constructor; cbn [kstep table hist nextinc ms ginc denied].
     + lia.
+    + exact ND0.
     + rewrite map_app. cbn [map kpid]. apply nodup_snoc; [apply (inv_nodup _ I)|].
       intros H. apply in_map_iff in H as [k [E Hk]]. eapply lookup_none; eauto.
     + intros k Hk. apply in_app_iff in Hk as [Hk|[Hk|[]]].
@@ -86,23 +89,30 @@ Proof.
       * intros G. apply Al; auto.
         destruct H1 as [(s0 & Es0 & H1)|(Ei & _)]; [apply (inv_lt _ I) in H1; lia|lia].
   - (* SpawnThread *)
-    apply (inv_table_shrink w); auto; cbn [kstep table].
+    apply (inv_table_shrink w); auto; cbn [kstep table denied]; auto.
     + rewrite map_map. erewrite map_ext; [apply (inv_nodup _ I)|].
       intros k. destruct (kpid k =? p); reflexivity.
     + intros k' Hk'. apply in_map_iff in Hk' as [k [E Hk]]. exists k. split; auto.
       subst k'. destruct (kpid k =? p); auto.
   - (* Exit *)
-    apply (inv_table_shrink w); auto; cbn [kstep table].
+    apply (inv_table_shrink w); auto; cbn [kstep table denied]; auto.
     + rewrite map_map. erewrite map_ext; [apply (inv_nodup _ I)|].
       intros k. destruct (kpid k =? p); reflexivity.
     + intros k' Hk'. apply in_map_iff in Hk' as [k [E Hk]]. exists k. split; auto.
       subst k'. destruct (kpid k =? p); auto.
   - (* Reap *)
-    apply (inv_table_shrink w); auto; cbn [kstep table].
+    apply (inv_table_shrink w); auto; cbn [kstep table denied]; auto.
     + apply nodup_map_filter. apply (inv_nodup _ I).
     + intros k' Hk'. apply filter_In in Hk' as [Hk _]. eauto.
   - (* ClockStep *)
-    apply (inv_table_shrink w); auto; cbn [kstep table].
+    apply (inv_table_shrink w); auto; cbn [kstep table denied]; auto.
+    + apply (inv_nodup _ I).
+    + intros k' Hk'. eauto.
+  - (* Deny: not in a well-formed history *)
+    discriminate.
+  - (* Allow *)
+    apply (inv_table_shrink w); auto; cbn [kstep table denied].
+    + rewrite ND0. reflexivity.
     + apply (inv_nodup _ I).
     + intros k' Hk'. eauto.
 Qed.
@@ -182,6 +192,7 @@ Proof.
   intros O. unfold parse_stat.
   destruct (oshot x) as [|n]; [|destruct (ocstat x)]; cbn [fst]; auto;
     destruct (kv_stat (view_of w) (opid x)) as [[[? ?] ?]|]; cbn [fst]; auto;
+    destruct (kv_ctime_ok (view_of w) (opid x)); cbn [fst]; auto;
     try (apply obj_ok_with_shot; auto).
 Qed.
 
@@ -206,7 +217,7 @@ Proof.
         match st with
         | Some (_, pp) =>
           (match oshot x2 with S _ => with_shot (oshot x2) (Some pp) (ocstat x2) x2 | O => x2 end, Val (RInt pp), add)
-        | None => (x2, Exc (esrch_exn (view_of w) (opid x2)), add)
+        | None => (x2, Exc (stat_exn (view_of w) (opid x2)), add)
         end
       | Exc e => (x1, Exc e, add)
       | OutOfModel => (x1, OutOfModel, add)
@@ -382,7 +393,8 @@ Lemma cstep_eq w c :
   ({| table := table w; hist := hist w; nextinc := nextinc w; btime := btime w;
       ms := fst (fst (mcall (view_of w) (ms w) c));
       ginc := ginc w ++ map (ghost_of w)
-                            (skipn (length (objs (ms w))) (objs (fst (fst (mcall (view_of w) (ms w) c))))) |},
+                            (skipn (length (objs (ms w))) (objs (fst (fst (mcall (view_of w) (ms w) c)))));
+      denied := denied w |},
    snd (fst (mcall (view_of w) (ms w) c)),
    map (tag w) (snd (mcall (view_of w) (ms w) c))).
 Proof. unfold cstep. destruct (mcall (view_of w) (ms w) c) as [[m1 r] scs]. reflexivity. Qed.
@@ -392,7 +404,8 @@ Lemma step_call w c :
   ({| table := table w; hist := hist w; nextinc := nextinc w; btime := btime w;
       ms := fst (fst (mcall (view_of w) (ms w) c));
       ginc := ginc w ++ map (ghost_of w)
-                            (skipn (length (objs (ms w))) (objs (fst (fst (mcall (view_of w) (ms w) c))))) |},
+                            (skipn (length (objs (ms w))) (objs (fst (fst (mcall (view_of w) (ms w) c)))));
+      denied := denied w |},
    snd (fst (mcall (view_of w) (ms w) c)),
    map (tag w) (snd (mcall (view_of w) (ms w) c))).
 Proof. cbn [step]. apply cstep_eq. Qed.
@@ -405,7 +418,7 @@ Proof.
   assert (Len : length upd = length (objs (ms w))).
   { rewrite (Forall2_len _ _ _ Fu). symmetry. apply (Forall2_len _ _ _ (inv_objs _ I)). }
   rewrite E, <- Len, skipn_app_exact.
-  constructor; cbn [table hist nextinc ms ginc]; try apply I.
+  constructor; cbn [table hist nextinc ms ginc denied]; try apply I.
   rewrite E. apply Forall2_app.
   - eapply Forall2_impl; [|exact Fu]. intros x i O. eapply obj_ok_ext; [| |exact O]; reflexivity.
   - clear E. induction Fn as [|y news Hy Fn IH]; cbn [map]; constructor; auto.
